@@ -33,7 +33,16 @@ type ShInner struct {
 	B *string
 }
 
+// PtrTM marshals as text through a pointer receiver: *PtrTM is a text scalar, PtrTM used by
+// value is an ordinary object.
+type PtrTM struct{ V int64 }
+
+func (p *PtrTM) MarshalText() ([]byte, error) { return []byte(fmt.Sprintf("ptm-%d", p.V)), nil }
+
 type Shapes struct {
+	Vtm     PtrTM
+	PVtm    *PtrTM
+	Vtms    []PtrTM
 	Id      int64
 	PI      *int64
 	PS      *string
@@ -59,13 +68,14 @@ type Shapes struct {
 }
 
 func mkShapes(id int64) *Shapes {
-	s := &Shapes{Id: id, E: world.EnumA(id % 3), Tm: world.TextM{V: id}, U8: uint8(id), F32: float32(id) / 2, L: world.Label(fmt.Sprint("l", id)), T: time.Unix(1600000000+id, 0).UTC(), Nested: ShInner{A: id}}
+	s := &Shapes{Vtm: PtrTM{V: id}, Vtms: []PtrTM{{V: id}, {V: id + 1}}, Id: id, E: world.EnumA(id % 3), Tm: world.TextM{V: id}, U8: uint8(id), F32: float32(id) / 2, L: world.Label(fmt.Sprint("l", id)), T: time.Unix(1600000000+id, 0).UTC(), Nested: ShInner{A: id}}
 	if id%2 == 0 {
 		i, str, b, f, t := id, "s", true, 1.5, time.Unix(1600000000, 0).UTC()
 		e := world.EnumA(1)
 		s.PI, s.PS, s.PB, s.PF, s.PT, s.PE = &i, &str, &b, &f, &t, &e
 		s.PNested = &ShInner{A: 7, B: &str}
 		s.PTm = &world.TextM{V: 9}
+		s.PVtm = &PtrTM{V: 5}
 	}
 	switch id % 3 {
 	case 0: // nil slices
@@ -81,6 +91,7 @@ func mkShapes(id int64) *Shapes {
 func extra(schema *schemabuilder.Schema) {
 	schema.Object("Shapes", Shapes{})
 	schema.Object("ShInner", ShInner{})
+	schema.Object("PtrTM", PtrTM{})
 	q := schema.Query()
 	q.FieldFunc("shapes", func() []*Shapes {
 		var out []*Shapes
